@@ -12,7 +12,8 @@ import Verif.Model.Token
     provisioner that answered; full strength since fix 719d1fc (ACME / SCEP provisioners, which
     ignore the token, are refused). `authorize_genuine_refuted` is the historic refutation for the
     definition before that fix (`authorizeOld`, D21).
-  * `subject_refuted` / `subject_partial` — "accepted ⇒ non-empty subject" fails for OIDC x509 sign / revoke.
+  * `subject_nonempty` — accepted ⇒ non-empty subject, for every type the harness validates (the three
+    cloud identity types do not test it); `subject_refuted` is the historic refutation for OIDC before 1529327 (D22).
   * `mutation_*` — one corollary per mutation class of the statement.
   * `nothing_happens` — in the six handlers every signing / revoking call is dominated by a
     successful `Authorize`, and a failed one returns (table re-derived from the source each run).
@@ -176,12 +177,12 @@ def Accepts (cfg : Config) (p : Prov) (c : Cr) (l : Cl) (now : Int) (op : Op) (t
       (op = .sign ∨ op = .revoke ∨ ((op = .sshSign ∨ op = .sshRevoke) ∧ p.sshEnabled = true))
   | .oidc =>
       -- issuer of the discovery document, audience = the client id (string equality), azp;
-      -- **no subject requirement** for X.509 sign and for revoke
-      c.sig = true ∧ (p.oidcIssuer = [] ∨ t.iss = p.oidcIssuer) ∧ Window now t ∧
+      -- non-empty subject for every operation (since 1529327)
+      c.sig = true ∧ (p.oidcIssuer = [] ∨ t.iss = p.oidcIssuer) ∧ Window now t ∧ t.sub ≠ [] ∧
       (∃ a ∈ t.aud, a.raw = p.clientId) ∧ (t.azp = [] ∨ t.azp = p.clientId) ∧
       c.domainOk = true ∧ c.groupOk = true ∧
       (op = .sign ∨ ((op = .revoke ∨ op = .sshRevoke) ∧ c.admin = true) ∨
-       (op = .sshSign ∧ p.sshEnabled = true ∧ t.sub ≠ [] ∧ (t.email = [] ∨ c.identOk = true)))
+       (op = .sshSign ∧ p.sshEnabled = true ∧ (t.email = [] ∨ c.identOk = true)))
   | .k8ssa =>
       -- **no audience requirement, hence none per operation**: one token serves sign, ssh-sign and revoke
       c.sig = true ∧ t.iss = k8sIssuer ∧ Window now t ∧ t.sub ≠ [] ∧
@@ -359,7 +360,8 @@ theorem nebulaOp_ok (cfg : Config) (p : Prov) (c : Cr) (now : Int) (op : Op) (t 
       (op = .sign ∨ op = .revoke ∨ ((op = .sshSign ∨ op = .sshRevoke) ∧ p.sshEnabled = true)) := by
   have hn : p.expIssuer = p.name := by simp [Prov.expIssuer, hty]
   cases op <;> simp only [nebulaOp, bind_ok, need_ok] at h
-  · obtain ⟨h0, h1, h2⟩ := nebulaTok_ok _ _ _ _ _ _ _ h; exact ⟨h0, h1, claims_of _ _ _ _ _ _ hn h2, by simp⟩
+  · obtain ⟨_, h', _⟩ := h
+    obtain ⟨h0, h1, h2⟩ := nebulaTok_ok _ _ _ _ _ _ _ h'; exact ⟨h0, h1, claims_of _ _ _ _ _ _ hn h2, by simp⟩
   · obtain ⟨_, hs, _, h', _⟩ := h
     obtain ⟨h0, h1, h2⟩ := nebulaTok_ok _ _ _ _ _ _ _ h'; exact ⟨h0, h1, claims_of _ _ _ _ _ _ hn h2, by simp [hs]⟩
   · exact absurd h (baseReject_ne _)
@@ -369,42 +371,42 @@ theorem nebulaOp_ok (cfg : Config) (p : Prov) (c : Cr) (now : Int) (op : Op) (t 
     obtain ⟨h0, h1, h2⟩ := nebulaTok_ok _ _ _ _ _ _ _ h'; exact ⟨h0, h1, claims_of _ _ _ _ _ _ hn h2, by simp [hs]⟩
 
 theorem oidcTok_ok (p : Prov) (c : Cr) (now : Int) (t : Tok) (u : Unit) (h : oidcTok p c now t = .ok u) :
-    c.sig = true ∧ (p.oidcIssuer = [] ∨ t.iss = p.oidcIssuer) ∧ Window now t ∧
+    c.sig = true ∧ (p.oidcIssuer = [] ∨ t.iss = p.oidcIssuer) ∧ Window now t ∧ t.sub ≠ [] ∧
       (∃ a ∈ t.aud, a.raw = p.clientId) ∧ (t.azp = [] ∨ t.azp = p.clientId) ∧
       c.domainOk = true ∧ c.groupOk = true := by
   unfold oidcTok at h
   simp only [bind_ok, need_ok] at h
-  obtain ⟨_, h0, _, h1, _, h2, _, h3, _, h4, _, h5, h6⟩ := h
-  refine ⟨h0, ?_, (validate_ok _ _ _ _ h3).2, ?_, ?_, h5, h6⟩
+  obtain ⟨_, h0, _, h1, _, h2, _, h3, _, hsub, _, h4, _, h5, h6⟩ := h
+  refine ⟨h0, ?_, (validate_ok _ _ _ _ h3).2, ?_, ?_, ?_, h5, h6⟩
   · simp at h1; rcases h1 with h1 | h1
     · exact .inl h1
     · exact .inr h1.symm
+  · intro hh; simp [hh] at hsub
   · simpa using h2
   · simpa using h4
 
 theorem oidcOp_ok (p : Prov) (c : Cr) (now : Int) (op : Op) (t : Tok) (u : Unit)
     (h : oidcOp p c now op t = .ok u) :
-    c.sig = true ∧ (p.oidcIssuer = [] ∨ t.iss = p.oidcIssuer) ∧ Window now t ∧
+    c.sig = true ∧ (p.oidcIssuer = [] ∨ t.iss = p.oidcIssuer) ∧ Window now t ∧ t.sub ≠ [] ∧
       (∃ a ∈ t.aud, a.raw = p.clientId) ∧ (t.azp = [] ∨ t.azp = p.clientId) ∧
       c.domainOk = true ∧ c.groupOk = true ∧
       (op = .sign ∨ ((op = .revoke ∨ op = .sshRevoke) ∧ c.admin = true) ∨
-       (op = .sshSign ∧ p.sshEnabled = true ∧ t.sub ≠ [] ∧ (t.email = [] ∨ c.identOk = true))) := by
+       (op = .sshSign ∧ p.sshEnabled = true ∧ (t.email = [] ∨ c.identOk = true))) := by
   cases op <;> simp only [oidcOp, bind_ok, need_ok] at h
-  · obtain ⟨a, b, c', d, e, f, g⟩ := oidcTok_ok _ _ _ _ _ h
-    exact ⟨a, b, c', d, e, f, g, by simp⟩
-  · obtain ⟨_, hs, _, h0, _, h1, h2⟩ := h
-    obtain ⟨a, b, c', d, e, f, g⟩ := oidcTok_ok _ _ _ _ _ h0
-    refine ⟨a, b, c', d, e, f, g, .inr (.inr ⟨rfl, hs, ?_, ?_⟩)⟩
-    · intro hh; simp [hh] at h1
-    · simpa using h2
+  · obtain ⟨a, b, c', d, e, f, g, i⟩ := oidcTok_ok _ _ _ _ _ h
+    exact ⟨a, b, c', d, e, f, g, i, by simp⟩
+  · obtain ⟨_, hs, _, h0, _, _, h2⟩ := h
+    obtain ⟨a, b, c', d, e, f, g, i⟩ := oidcTok_ok _ _ _ _ _ h0
+    refine ⟨a, b, c', d, e, f, g, i, .inr (.inr ⟨rfl, hs, ?_⟩)⟩
+    simpa using h2
   · exact absurd h (baseReject_ne _)
   · exact absurd h (baseReject_ne _)
   · obtain ⟨_, h0, h1⟩ := h
-    obtain ⟨a, b, c', d, e, f, g⟩ := oidcTok_ok _ _ _ _ _ h0
-    exact ⟨a, b, c', d, e, f, g, .inr (.inl ⟨.inl rfl, h1⟩)⟩
+    obtain ⟨a, b, c', d, e, f, g, i⟩ := oidcTok_ok _ _ _ _ _ h0
+    exact ⟨a, b, c', d, e, f, g, i, .inr (.inl ⟨.inl rfl, h1⟩)⟩
   · obtain ⟨_, h0, h1⟩ := h
-    obtain ⟨a, b, c', d, e, f, g⟩ := oidcTok_ok _ _ _ _ _ h0
-    exact ⟨a, b, c', d, e, f, g, .inr (.inl ⟨.inr rfl, h1⟩)⟩
+    obtain ⟨a, b, c', d, e, f, g, i⟩ := oidcTok_ok _ _ _ _ _ h0
+    exact ⟨a, b, c', d, e, f, g, i, .inr (.inl ⟨.inr rfl, h1⟩)⟩
 
 theorem k8sTok_ok (p : Prov) (c : Cr) (now : Int) (t : Tok) (u : Unit) (hty : p.ty = .k8ssa)
     (h : k8sTok p c now t = .ok u) : c.sig = true ∧ t.iss = k8sIssuer ∧ Window now t ∧ t.sub ≠ [] := by
@@ -749,57 +751,69 @@ def oidcTokNoSub : Tok :=
     fragment := [], fragEsc := [], hasSSH := false, sshTypeOk := true, nebSshOk := true, pop := none,
     cr := [Cr.none, ⟨true, false, false, false, true, true, true, false⟩, Cr.none] }
 
-/-- **Refutation.** "Accepted ⇒ non-empty subject" is false for the code as it stands: an OIDC token
-    that verifies, with no `sub`, is authorized for X.509 sign. -/
+/-- `OIDC.authorizeToken` + `ValidatePayload` as they were before fix 1529327 (no subject test; historic) -/
+def oidcTokOld (p : Prov) (c : Cr) (now : Int) (t : Tok) : Out Unit := do
+  need c.sig .signature
+  need (p.oidcIssuer.isEmpty || p.oidcIssuer == t.iss) .issuer
+  need (t.aud.any fun a => a.raw == p.clientId) .audience
+  validate [] now t
+  need (t.azp.isEmpty || t.azp == p.clientId) .azp
+  need c.domainOk .domain
+  need c.groupOk .group
+
+/-- **Historic refutation (D22, fixed by 1529327).** Before the fix a verified OIDC id token with no
+    `sub` passed `ValidatePayload`, hence X.509 sign. -/
 theorem subject_refuted :
-    ¬ ∀ (cfg : Config) (now : Int) (op : Op) (t : Tok) (i : Nat), authorize cfg now op t = .ok i → t.sub ≠ [] := by
+    ¬ ∀ (p : Prov) (c : Cr) (now : Int) (t : Tok) (u : Unit), oidcTokOld p c now t = .ok u → t.sub ≠ [] := by
   intro h
-  have hacc : authorize exCfg (2000 * ns) .sign oidcTokNoSub = .ok 1 := by decide
+  have hacc : oidcTokOld exOidc ⟨true, false, false, false, true, true, true, false⟩ (2000 * ns) oidcTokNoSub = .ok () := by
+    decide
   exact h _ _ _ _ _ hacc rfl
 
-/-- the provisioner types whose code does not require a subject: OIDC (X.509 sign, revoke) and the
-    three cloud identity types -/
-def NoSubjectTest (ty : PType) (op : Op) : Prop :=
-  (ty = .oidc ∧ op ≠ .sshSign) ∨ ty = .gcp ∨ ty = .aws ∨ ty = .azure
+/-- the same token is refused now -/
+example : authorize exCfg (2000 * ns) .sign oidcTokNoSub = .reject .subject := by decide
 
-/-- **subject_partial / mutation: empty subject.** A token without subject is accepted only by an
-    OIDC provisioner for X.509 sign or (admins) revoke, or by a cloud identity provisioner; every
-    other provisioner type and operation refuses it. -/
-theorem subject_partial (cfg : Config) (now : Int) (op : Op) (t : Tok) (i : Nat)
-    (hs : t.sub = []) (h : authorize cfg now op t = .ok i) :
-    ∃ p, cfg.provs[i]? = some p ∧ NoSubjectTest p.ty op := by
+/-- the provisioner types whose code does not require a subject: the three cloud identity types
+    (modelled from the source, not validated); every other type requires one for every operation -/
+def NoSubjectTest (ty : PType) : Prop := ty = .gcp ∨ ty = .aws ∨ ty = .azure
+
+/-- **subject_nonempty.** An accepted token has a non-empty subject, unless a cloud identity
+    provisioner (GCP, AWS, Azure) answered. For every configuration, instant, operation and token. -/
+theorem subject_nonempty (cfg : Config) (now : Int) (op : Op) (t : Tok) (i : Nat)
+    (h : authorize cfg now op t = .ok i) :
+    ∃ p, cfg.provs[i]? = some p ∧ (t.sub ≠ [] ∨ NoSubjectTest p.ty) := by
   obtain ⟨p, hp, ⟨h1, h2⟩, _, _, _, _, _, ha⟩ := authorize_sound _ _ _ _ _ h
   refine ⟨p, hp, ?_⟩
   unfold Accepts at ha
   unfold NoSubjectTest
   cases hty : p.ty <;> simp only [hty] at ha h1 h2 ⊢
-  · exact absurd hs ha.2.1.2.2.2
-  · exact absurd hs ha.2.2.2.1.2.2.2
-  · obtain ⟨_, _, _, _, hc, _⟩ := ha; exact absurd hs hc.2.2.2
-  · left
-    refine ⟨trivial, ?_⟩
-    intro hop
-    rcases ha.2.2.2.2.2.2.2 with h1 | ⟨h1 | h1, _⟩ | ⟨_, _, h1, _⟩
-    · rw [hop] at h1; cases h1
-    · rw [hop] at h1; cases h1
-    · rw [hop] at h1; cases h1
-    · exact h1 hs
-  · exact absurd hs ha.2.2.2.1
-  · exact absurd hs ha.2.2.1.2.2.2
+  · exact .inl ha.2.1.2.2.2
+  · exact .inl ha.2.2.2.1.2.2.2
+  · obtain ⟨_, _, _, _, hc, _⟩ := ha; exact .inl hc.2.2.2
+  · exact .inl ha.2.2.2.1
+  · exact .inl ha.2.2.2.1
+  · exact .inl ha.2.2.1.2.2.2
   · exact absurd rfl h1
   · exact absurd rfl h2
   · simp
   · simp
   · simp
 
+/-- **subject_partial / mutation: empty subject.** A token without subject is accepted only by a
+    cloud identity provisioner; every validated provisioner type refuses it for every operation. -/
+theorem subject_partial (cfg : Config) (now : Int) (op : Op) (t : Tok) (i : Nat)
+    (hs : t.sub = []) (h : authorize cfg now op t = .ok i) :
+    ∃ p, cfg.provs[i]? = some p ∧ NoSubjectTest p.ty := by
+  obtain ⟨p, hp, hc⟩ := subject_nonempty _ _ _ _ _ h
+  exact ⟨p, hp, hc.resolve_left (fun hn => hn hs)⟩
+
 theorem mutation_empty_subject (cfg : Config) (now : Int) (op : Op) (t : Tok)
-    (hno : ∀ p ∈ cfg.provs, p.ty ≠ .oidc ∧ p.ty ≠ .gcp ∧ p.ty ≠ .aws ∧ p.ty ≠ .azure)
+    (hno : ∀ p ∈ cfg.provs, p.ty ≠ .gcp ∧ p.ty ≠ .aws ∧ p.ty ≠ .azure)
     (hs : t.sub = []) : ∀ i, authorize cfg now op t ≠ .ok i := by
   intro i h
   obtain ⟨p, hp, hc⟩ := subject_partial _ _ _ _ _ hs h
-  obtain ⟨h1, h2, h3, h4⟩ := hno p (List.mem_of_getElem? hp)
-  rcases hc with ⟨hc, _⟩ | hc | hc | hc
-  · exact h1 hc
+  obtain ⟨h2, h3, h4⟩ := hno p (List.mem_of_getElem? hp)
+  rcases hc with hc | hc | hc
   · exact h2 hc
   · exact h3 hc
   · exact h4 hc
@@ -989,7 +1003,7 @@ theorem mutation_other_audience (cfg : Config) (now : Int) (op : Op) (t : Tok)
     · simp at hu
     · simp at hu
     · cases op <;> simp only [nebulaOp, bind_ok, need_ok] at h5
-      · exact key _ (nebulaTok_ok _ _ _ _ _ _ _ h5).2.2
+      · obtain ⟨_, h, _⟩ := h5; exact key _ (nebulaTok_ok _ _ _ _ _ _ _ h).2.2
       · obtain ⟨_, _, _, h, _⟩ := h5; exact key _ (nebulaTok_ok _ _ _ _ _ _ _ h).2.2
       · exact baseReject_ne _ h5
       · exact baseReject_ne _ h5
